@@ -616,6 +616,11 @@ def run_case(case, name, early=None):
             rec["marks"].append(ctx["mark"])
             rec["pre_init"].append(ctx["pre"])
             state["current"] = models[c[4] if len(c) > 4 and isinstance(c[4], int) else 0]
+        elif r.startswith("exc:"):
+            # construct_model raised: the initialize was aborted, but construct_model had begun (streams re-seeded,
+            # a new producer) - what follows belongs to this aborted replication
+            rec["marks"].append(ctx["mark"])
+            rec["pre_init"].append(ctx["pre"])
         else:
             state["exec_in_repl"] = ctx["exec"]
             state["old_threads"] = ctx["old"]
